@@ -12,7 +12,7 @@ ASSUMPTIONS = A_COMMON + [
     "transitive chains of invalidation, collection element helpers, update/transform (mutate_value) and the constructor are covered here "
     "only through the bounded harness; their contracts live in the checks of C05/C06/C09",
 ]
-EXPLANATION = "invalidate_attrs clears every direct dependant of the changed attribute (and of '*'), never anything outside the transitive dependants (frame), and only ever clears (monotone); every successful mutation route reaches it unless skip_invalidation; failing mutations leave the receiver unchanged"
+EXPLANATION = "invalidate_attrs clears every *transitive* dependant of the changed attribute (and of '*') - the recursion through __delattr__ / invalidate_attrs is verified against these very contracts, with reach() the transitive closure of the invalidation map (both unfolding directions) - touches nothing outside that closure (frame), and only ever clears (monotone); every successful mutation route reaches it unless skip_invalidation; failing mutations leave the receiver unchanged"
 FINDINGS = []
 
 
